@@ -45,6 +45,9 @@ func (ec *ErrorContainer) AddError(err error) {
 // AddErrorList takes a list of errors and adds them to the container.  Any errors
 // which are nil will be dropped.
 func (ec *ErrorContainer) AddErrorList(el []error) {
+	if ec == nil {
+		return
+	}
 	if ec.errors_ == nil {
 		ec.errors_ = make([]error, 0, len(el))
 	}
